@@ -452,8 +452,10 @@ class Env:
         if name in self.confirmed:
             # same obligation already confirmed by replay on another path of this configuration
             return "violated", {"replay": self.confirmed[name], "duplicate_of_confirmed": True}
-        if c.atoms and _mentions(phi, {a[0].get_id() for a in c.atoms}):
-            # (an obligation that does not mention any root atom cannot be an artefact of the root abstraction)
+        atom_ids = {a[0].get_id() for a in c.atoms}
+        if c.atoms and (_mentions(phi, atom_ids) or any(_mentions(f, atom_ids) for f in self._assumptions(groups))):
+            # (an obligation that mentions no root atom -- neither itself nor through the fact groups it is decided under, which may
+            # define abstraction variables in terms of atoms (C20) -- cannot be an artefact of the root abstraction)
             for level in (1, 2):
                 ex = c.atom_defs(level)
                 if level == 1 and not ex:
